@@ -9,6 +9,11 @@ TB = "CPython 3.12, crosshair-tool 0.0.110, z3 5.1; the import shim of lib/repo_
 
 # id -> (category, technique, text, note, design_ref, engine)
 CHECKS = {
+    "C11": ("model_checking",
+            "solver-enumerated (CrossHair/z3) histories of .check() calls through the real engine and checker; the target's outcome after every history within the bound is compared with its first-check outcome",
+            "Restricted to checking (the HUGR cannot be produced for /repo here): over a pool of 10 definitions (accepted and failing, struct, generics, closures, std iterators) every history of up to 2 (quick) / 3 (thorough) earlier "
+            "check() calls followed by the target and a re-check of the target yields the same rendered diagnostic / the same checked CFG dump as checking the target first.",
+            TB + "; ENGINE.reset() + first use stands for a new session; outcome normalisation (addresses, counter of temporaries)", "DESIGN.md §5 C11", "E1"),
     "C13": ("model_checking",
             "solver-enumerated (CrossHair/z3) configurations through the real FunctionType.instantiate_partial / instantiate / unquantified, Instantiator, Param.with_idx / instantiate_bounds and partially_monomorphize_args / compile_variable_idx; composition laws and hand-written textual substitution as oracle",
             "Restricted to the type level: generic signatures over 3 parameters (8 kind vectors mixing type, nat-const and dependent-const parameters), all 8 first-stage masks, 2 arguments per parameter, 8 occurrence-shape vectors: partial-then-rest == all-at-once == textual substitution, "
@@ -155,7 +160,6 @@ NOT_APPLICABLE = {
     "C01": "validity is decided by HUGR emission + the Rust validator; /repo's emitter cannot run against its pinned hugr/tket-exts here (installed 0.18/0.14 vs required 0.14/0.12) and the quantifier is over whole programs only",
     "C02": "quantifies over whole programs through the entire checker (ast/str objects CrossHair must realise); no input a solver can range over; the rendering sub-claim is decided under C29",
     "C07": "write-back of borrowed arguments is generated during HUGR emission and observed on the emulator; neither runs for /repo's sources in this sandbox",
-    "C11": "histories of whole-compiler calls over global caches; the observable is back-end HUGR, which /repo cannot produce here",
     "C19": "bounds/alias panics are executed by HUGR borrow_array ops inside Selene; /repo only selects which ops to emit (back end)",
     "C20": "gate matrices live in tket/Selene; needs complex floating-point matrix products with sin/cos, outside SMT reach; emulator cannot run /repo's output",
     "C25": "concerns the emitted HUGR structure only (modifier_compiler, back end)",
